@@ -9,7 +9,7 @@ from xh.rt import notrace, pick
 
 PROP = 'C13'
 T3 = ['or', 'and', 'defense']
-T4 = ['or', 'and', 'defense', 'exist']
+T4 = ['or', 'and', 'defense', 'exist', 'notExist']
 
 
 def _prune_and_check(g, nodes, types, flags, seen_ids, seen_names):
@@ -54,6 +54,9 @@ def body_prune(cube, **kw):
             for x in nodes:
                 if x.type == 'defense':
                     x.defense_status = 0.5
+        for x in nodes:
+            if x.type in ('exist', 'notExist'):
+                x.existence_status = True
         seen_ids = [x.id for x in nodes]
         seen_names = [x.full_name for x in nodes]
     flags = []
@@ -116,9 +119,9 @@ def queries(tier):
             bound='%d nodes, every type vector over %s (one cube each), symbolic viability/necessity flags, '
                   'every edge set with <= %d edges incl. self-loops, each edge single or doubled (parallel edges)' % (n, tset, maxe))
     if tier == 'quick':
-        qs.append(mk('prune3', 3, T3, 1, 240))
+        qs.append(mk('prune3', 3, ['or', 'and', 'notExist'], 1, 240))
     else:
-        qs.append(mk('prune3', 3, T4, 2, 1500))
+        qs.append(mk('prune3', 3, T4, 1, 1500))
         qs.append(mk('prune4', 4, ['or', 'defense'], 1, 1500))
     n = 3
     params = [I('t%d' % i, 0, 2) for i in range(n)] + [B('v%d' % i) for i in range(n)] + \
